@@ -1033,7 +1033,69 @@ type dcand struct {
 	ticket  []byte // the ticket it is a genuine discharge OF (nil: the ticket of the pool it sits in)
 }
 
+// sealTwiceRun: "sealing the same content twice never yields the same bytes", at the API.  One third-party caveat VALUE
+// (one discharge secret) added to several copies of one token - decoded twice, cloned - is sealed under the same key (the
+// copies' equal tails) with the same plaintext: the sealed verifier keys must differ pairwise, every copy must still
+// verify with a genuine discharge, and two tickets made for the same party with the same conditions must differ.
+// (round 34: a seal nonce derived from key and plaintext gave byte-identical copies.)
+func sealTwiceRun(r *Rng) string {
+	for i := 0; i < 6; i++ {
+		key, ka := r.Bytes(32), r.Bytes(32)
+		tpLoc := pick(r, []string{"https://auth.example", "", "tp3"})
+		root, _ := macaroon.New(r.Bytes(8), "https://api.fly.io/v1", key)
+		if i%2 == 1 {
+			root.Add(r.plainCav(1))
+		}
+		rootB := mustEnc(root)
+		var conds []macaroon.Caveat
+		if i%3 == 0 {
+			conds = append(conds, r.plainCav(0))
+		}
+		cav, err := macaroon.NewCaveat3P(ka, tpLoc, conds...)
+		if err != nil {
+			return "harness-error"
+		}
+		seenVK := map[string]bool{}
+		for j := 0; j < 4; j++ {
+			var m *macaroon.Macaroon
+			if j == 3 {
+				m0, _ := macaroon.Decode(rootB)
+				m, err = m0.Clone()
+			} else {
+				m, err = macaroon.Decode(rootB)
+			}
+			if err != nil || m.Add(cav) != nil {
+				return "harness-error(add)"
+			}
+			c3s := macaroon.GetCaveats[*macaroon.Caveat3P](&m.UnsafeCaveats)
+			if len(c3s) != 1 {
+				return "harness-error(3p)"
+			}
+			vk := string(c3s[0].VerifierKey)
+			if seenVK[vk] {
+				return "same-secret-sealed-twice-under-one-key-gives-the-same-bytes"
+			}
+			seenVK[vk] = true
+			b := mustEnc(m)
+			_, dm, err := macaroon.DischargeTicket(ka, tpLoc, c3s[0].Ticket)
+			if err != nil || dm.Bind(b) != nil {
+				return "harness-error(discharge)"
+			}
+			vm, _ := macaroon.Decode(b)
+			if _, err := vm.Verify(key, [][]byte{mustEnc(dm)}, nil); err != nil {
+				return "copy-with-resealed-key-refused"
+			}
+		}
+		cav2, err := macaroon.NewCaveat3P(ka, tpLoc, conds...)
+		if err != nil || string(cav2.Ticket) == string(cav.Ticket) {
+			return "two-tickets-with-the-same-content-are-the-same-bytes"
+		}
+	}
+	return "sound"
+}
+
 func famDischarge(r *Rng, o *Out, tier string) {
+	o.emit("(const sound)", sealTwiceRun(r))
 	n := 250
 	if tier == "thorough" {
 		n = 4000
